@@ -198,6 +198,28 @@ CLAIMS["C16"] = dict(
     technique="static analysis: dataclass flag tables, handle dataflow rules over builder call sites, CFG control of refusal sites",
     design="DESIGN.md section 5, C16")
 
+CLAIMS["C09"] = dict(
+    text="Envelope conditions visible in code shape: header constants equal the tables scanned from hugr-core/src/envelope/header.rs "
+         "(magic, format discriminants, flag constant, zstd mask, printable formats) and the documented layout; header length 10 is "
+         "used consistently (length test, byte positions, payload offset); the zstd flag is `zstd is not None`, compression happens "
+         "under exactly that condition and decompression iff the flag read with the same mask; the three rejection guards dominate "
+         "the decoder's return and no handler swallows them; text encoding is gated on ascii_printable before encoding; writer and "
+         "reader have an arm for every format; Package entry points pair up; the Package codec maps both lists in order.",
+    note="Not decided: byte-level round trip through zstd / UTF-8 for arbitrary payloads; exhaustive decoding of the 2^16 header "
+         "space would mean executing from_bytes (another family).",
+    technique="static analysis: table agreement with the Rust reference + CFG guard dominance + match exhaustiveness",
+    design="DESIGN.md section 5, C09")
+CLAIMS["C20"] = dict(
+    text="Rendering decided by shape: render starts _viz_node at the root and draws one _viz_link per element of hugr.links() with "
+         "no filter; _viz_node emits exactly one node statement on each of its two paths, named str(node.idx) with the op's display "
+         "name, opens cluster<idx> iff the node has children and recurses over all children inside it; port cells are generated "
+         "for range(num_in_ports)/range(num_out_ports) with the id prefixes the edge endpoints use; every arm of the kind match "
+         "falls through to the single graph.edge(out-port name, in-port name), the match is exhaustive over tys.Kind and value edges "
+         "are labelled str(ty); no store/mutator reaches the Hugr; the configuration only feeds colours and the name choice.",
+    note="Not decided: the DOT text itself (graphviz library behaviour).",
+    technique="static analysis: path-count rule on the node statements, effect analysis, match exhaustiveness against tys.Kind",
+    design="DESIGN.md section 5, C20")
+
 NOT_APPLICABLE_REASON: dict[str, str] = {}
 
 
